@@ -147,43 +147,53 @@ func c01Extra(c *Ctx) {
 	p := c.P
 	c.Rule("EMPTY-PACKAGE", "a file without a package never pulls other package-less files into the targets", 1)
 	c.Rule("EXTERNAL-PATH-RESOLVER", "every diagnostic conversion maps paths to the path the user gave", 3)
-	if fr := p.Func("private/bufpkg/bufmodule", "moduleReadBucket.getIsTargetFileForPathUncached"); fr != nil {
-		info := fr.Info()
-		g := p.CFGOf(fr.Decl.Body, info)
-		var cmp *ast.ReturnStmt
-		var guards []ast.Node
-		ast.Inspect(fr.Decl.Body, func(x ast.Node) bool {
-			switch y := x.(type) {
-			case *ast.ReturnStmt:
-				if len(y.Results) == 2 {
-					if be, ok := y.Results[0].(*ast.BinaryExpr); ok && be.Op == token.EQL && strings.HasSuffix(exprString(be.X), ".PackageName") && strings.HasSuffix(exprString(be.Y), ".PackageName") {
-						cmp = y
+	// the function is found by what it does (it returns `a.PackageName == b.PackageName`), wherever that branch lives
+	nCmp := 0
+	if pkM := p.Pkg("private/bufpkg/bufmodule"); pkM != nil {
+		for _, fr := range p.FuncsOf(pkM) {
+			if fr.Decl.Body == nil {
+				continue
+			}
+			info := fr.Info()
+			var cmp *ast.ReturnStmt
+			var guards []ast.Node
+			ast.Inspect(fr.Decl.Body, func(x ast.Node) bool {
+				switch y := x.(type) {
+				case *ast.ReturnStmt:
+					if len(y.Results) >= 1 {
+						if be, ok := ast.Unparen(y.Results[0]).(*ast.BinaryExpr); ok && be.Op == token.EQL && strings.HasSuffix(exprString(be.X), ".PackageName") && strings.HasSuffix(exprString(be.Y), ".PackageName") {
+							cmp = y
+						}
 					}
-				}
-			case *ast.IfStmt:
-				if be, ok := y.Cond.(*ast.BinaryExpr); ok && be.Op == token.EQL && strings.HasSuffix(exprString(be.X), ".PackageName") {
-					if s, isLit := stringLit(info, be.Y); isLit && s == "" {
-						for _, st := range y.Body.List {
-							if r, ok := st.(*ast.ReturnStmt); ok && len(r.Results) == 2 && exprString(r.Results[0]) == "false" {
-								guards = append(guards, y.Cond)
+				case *ast.IfStmt:
+					if be, ok := ast.Unparen(y.Cond).(*ast.BinaryExpr); ok && be.Op == token.EQL && strings.HasSuffix(exprString(be.X), ".PackageName") {
+						if s, isLit := stringLit(info, be.Y); isLit && s == "" {
+							for _, st := range y.Body.List {
+								if r, ok := st.(*ast.ReturnStmt); ok && len(r.Results) >= 1 && exprString(r.Results[0]) == "false" {
+									guards = append(guards, y.Cond)
+								}
 							}
 						}
 					}
 				}
+				return true
+			})
+			if cmp == nil {
+				continue
 			}
-			return true
-		})
-		ok := cmp != nil && len(guards) > 0
-		if ok {
+			nCmp++
+			g := p.CFGOf(fr.Decl.Body, info)
 			dom := false
 			for _, gd := range guards {
 				if g.Dominates(gd, cmp) {
 					dom = true
 				}
 			}
-			ok = dom
+			c.Ob("EMPTY-PACKAGE", "package-equality", fr.Decl.Pos(), dom, true, "in %s the package-name equality that adds package files is dominated by a `PackageName == \"\"` → false test: %v", fr.Decl.Name.Name, dom)
 		}
-		c.Ob("EMPTY-PACKAGE", "getIsTargetFileForPathUncached/package-equality", fr.Decl.Pos(), ok, true, "the package-name equality that adds package files is dominated by a `PackageName == \"\"` → false test: %v", ok)
+	}
+	if nCmp == 0 {
+		c.Fail("EMPTY-PACKAGE", "package-equality", token.NoPos, "no function of bufmodule returns a PackageName equality any more: undecided")
 	}
 	n := 0
 	for _, pk := range p.ModulePkgs() {
